@@ -1,4 +1,4 @@
-//go:build verif
+//go:build verif && (p_all || p_c04)
 
 package props
 
@@ -287,5 +287,37 @@ func c04Run(c *mon.Ctx, csAny any) {
 		if c.WantSample() && cs.E.R.Kind == "scaled" {
 			c.Sample(map[string]any{"case": cs, "encode": mon.H(enc), "encode_uncompressed": mon.H(encU), "raw": before.String()})
 		}
+	}
+}
+
+func c04RunConc(c *mon.Ctx, seed uint64) {
+	r := concRng("C04", seed)
+
+	var jobs []func() string
+
+	for i := 0; i < concJobs; i++ {
+		p := gen.Fresh(r)
+		e := mon.Elem(p.P, gen.DrawRepr(r, false))
+		wc, wu := oracle.EncC(p.P), oracle.EncU(p.P)
+		jobs = append(jobs, func() string {
+			if got := e.Encode(); !bytes.Equal(got, wc) {
+				return fmt.Sprintf("Encode=%s want %s", mon.H(got), mon.H(wc))
+			}
+
+			if got := e.EncodeUncompressed(); !bytes.Equal(got, wu) {
+				return fmt.Sprintf("EncodeUncompressed=%s want %s", mon.H(got), mon.H(wu))
+			}
+
+			d := secp256k1.NewElement()
+			if err := d.Decode(wc); err != nil || d.Equal(e) != 1 {
+				return "Decode(Encode(P)) != P"
+			}
+
+			return ""
+		})
+	}
+
+	if c.RunConcurrent("Encode / EncodeUncompressed / Decode round trip", "encode-concurrent", 800, jobs) {
+		c.Seen("conc", seed)
 	}
 }
